@@ -796,6 +796,12 @@ def check_hier(ctx, spec, H, configs, lean_items, want_lean, want_m, precond=Tru
         if H.nlev == 1 and singular1:
             # a one-level hierarchy is a pure direct solve: with singular A the initial guess cannot matter (see META)
             xs = x0.copy()
+            try:        # make sure the initial guess has a null-space component
+                nv = np.linalg.svd(A0d)[2][-1].conj()
+                if abs(np.vdot(nv, xs)) < 0.5:
+                    xs = xs + 3.0 * nv / max(1e-300, np.abs(nv).max())
+            except Exception:
+                pass
             bb = A0d @ xs
             try:
                 y = _solve(H, bb, xs.copy(), c, cpl)
